@@ -301,7 +301,7 @@ func (w *world) analyse() *analysis {
 		for k := range st {
 			visited[k.fn] = true
 		}
-		row.acc = dedupAcc(row.acc, sp.keepVia)
+		row.acc = dedupAcc(row.acc, true)
 		res.rows = append(res.rows, row)
 	}
 	// 2. writes in functions no row reaches (APIs outside the property's list, dead code)
